@@ -5,6 +5,7 @@ TabularInput.validate per time point, and (invariant at a hook) the key set of O
 call of validate_temporal_relations.
 """
 import itertools
+import zlib
 
 from hedmon.core import env
 
@@ -24,7 +25,7 @@ ASSUMPTIONS = ["open-scope model in this file (15 lines) encodes the property te
                "equal-onset rows and delayed groups only carry pairwise distinct names, because the order in which an "
                "unstable sort leaves equal onsets is not part of the property",
                "schema 8.3.0; times are dyadic so float sums are exact"]
-MIN_MONITOR_EVALS = {"issue-count-per-time-point": 300, "open-set-after-time-point": 300, "validator-reused": 150}
+MIN_MONITOR_EVALS = {"issue-count-per-time-point": 300, "open-set-after-time-point": 300, "validator-reused": 150, "validated-again-after-set-cell": 100}
 WATCHDOG_S = {"quick": 900, "thorough": 5400}
 
 
@@ -71,12 +72,17 @@ def model(time_points):
     return counts, states
 
 
+DELAY_SPELLINGS = ["Delay", "Delay", "delay", "DELAY", "Temporal-value/Delay", "dElAy",
+                   "Property/Data-property/Data-value/Spatiotemporal-value/Temporal-value/delay"]
+
+
 def group_text(kind, name, idx, delay=None):
     parts = [kind, f"Def/{name}"]
     if kind != "Offset" and idx % 2 == 0:
         parts.append(f"(Label/m{idx})")
     if delay:
-        parts.insert(0, f"Delay/{delay} s")
+        # the tag under any of its spellings (letter case, partial and full path)
+        parts.insert(0, f"{DELAY_SPELLINGS[idx % len(DELAY_SPELLINGS)]}/{delay} s")
     return "(" + ", ".join(parts) + ")"
 
 
@@ -195,6 +201,28 @@ def check_case(case, rec):
     if got != want_counts:
         rec.violation("number of temporal issues per time point differs from the open-scope model",
                       dict(case, observed=got, model=want_counts))
+    if len(df) >= 2 and zlib.crc32(repr(case["rows"]).encode()) % 4 == 0 and not case.get("via_ref"):
+        # one table object validated, a marker cell replaced through set_cell, validated again: the bookkeeping follows
+        # the event history the table holds now
+        rec.mon("validated-again-after-set-cell")
+        key2 = lambda i: (i["code"], i.get("ec_row"), i.get("severity"), i.get("message"))      # noqa
+        try:
+            class _Text:
+                def get_as_form(self, tag_form):
+                    return "Green"
+            ti = TabularInput(df.copy())
+            ti.validate(schema, extra_def_dicts=dd)
+            ri = zlib.crc32(repr(case["rows"]).encode()) // 4 % len(df)
+            ti.set_cell(ri, 1, _Text())
+            edited = ti.validate(schema, extra_def_dicts=dd)
+            df2 = df.copy()
+            df2.iloc[ri, 1] = "Green"
+            fresh = TabularInput(df2).validate(schema, extra_def_dicts=dd)
+        except Exception as ex:  # noqa
+            rec.violation(f"validating a table again after set_cell raised {type(ex).__name__}", case)
+            edited = None
+        if edited is not None and sorted(map(key2, edited), key=repr) != sorted(map(key2, fresh), key=repr):
+            rec.violation("a table validated again after a cell was replaced differs from a fresh table with that cell", case)
     if case.get("before"):
         # one validator object used for the file validated just before and then for this one: every file starts with
         # no scope open, whatever the validator saw earlier
